@@ -434,6 +434,12 @@ class FSInterp(ResultInterp):
                 elif not kwargs.get("missing_ok", False):
                     raise RaiseSignal("FileNotFoundError", node)
                 return None
+            if name == "is_dir":
+                return o.s in fs.dirs
+            if name == "is_symlink":
+                return False
+            if name in ("replace", "rename") and args and isinstance(args[0], (str, PathV)):
+                return self.external_call("os.replace", [o, args[0]], {}, node)
             if name == "touch":
                 self.fslog("create", o.s)
                 fs.files.setdefault(o.s, [])
@@ -707,6 +713,35 @@ class FSInterp(ResultInterp):
                 fs.__dict__.setdefault("inodes", {}).pop(p, None)
                 return None
             raise RaiseSignal("FileNotFoundError", node)
+        if name in ("os.replace", "os.rename", "shutil.move") and len(args) == 2 and all(isinstance(a, (str, PathV)) for a in args):
+            a, b = [x.s if isinstance(x, PathV) else x for x in args]
+            if a not in fs.files:
+                raise RaiseSignal("FileNotFoundError", node)
+            self.fslog("rename", a, b)
+            fs.files[b] = fs.files.pop(a)
+            ino = fs.__dict__.setdefault("inodes", {})
+            if a in ino:
+                ino[b] = ino.pop(a)
+            return None
+        if name in ("shutil.copyfile", "shutil.copy", "shutil.copy2") and len(args) == 2 and all(isinstance(a, (str, PathV)) for a in args):
+            a, b = [x.s if isinstance(x, PathV) else x for x in args]
+            if a not in fs.files:
+                raise RaiseSignal("FileNotFoundError", node)
+            self.fslog("copy", a, b)
+            fs.files[b] = [list(r) for r in fs.files[a]]
+            return b
+        if name in ("shutil.copymode", "shutil.copystat", "os.chmod", "os.utime"):
+            return None  # permission bits / times: no content
+        if name in ("os.path.realpath", "os.path.abspath", "os.path.normpath", "os.path.expanduser") and len(args) == 1 and isinstance(args[0], (str, PathV)):
+            return args[0].s if isinstance(args[0], PathV) else args[0]
+        if name == "os.access" and args and isinstance(args[0], (str, PathV)):
+            return True  # the directories and files of the abstract file system are accessible
+        if name == "os.getpid":
+            return 4242
+        if name == "os.path.isdir" and len(args) == 1 and isinstance(args[0], (str, PathV)):
+            return (args[0].s if isinstance(args[0], PathV) else args[0]) in fs.dirs
+        if name == "os.path.isfile" and len(args) == 1 and isinstance(args[0], (str, PathV)):
+            return (args[0].s if isinstance(args[0], PathV) else args[0]) in fs.files
         if name == "os.path.exists":
             p = args[0].s if isinstance(args[0], PathV) else args[0]
             self.fslog("exists", p)
